@@ -47,17 +47,19 @@ def inputs(ctx, cases, wd):
         p = os.path.join(ind, "v%d.exp" % i)
         open(p, "w", encoding="latin-1").write(express.render(c["schema"]))
         out.append(("v%d" % i, p, "valid", None, c))
-        muts = sorted(c["mutants"], key=lambda m: (m["class"], m["at"], m.get("pos", "")))
+        muts = sorted(c["mutants"], key=lambda m: (m["class"], m.get("stretch", 0), m["at"], m.get("pos", "")))
         if ctx.quick:
             # every class on every schema, one position each (rotating with the schema's index)
             bycl = {}
             for m in muts:
-                bycl.setdefault(m["class"], []).append(m)
+                bycl.setdefault((m["class"], m.get("stretch", 0)), []).append(m)
             muts = [ms[i % len(ms)] for cl, ms in sorted(bycl.items())]
         for k, m in enumerate(muts):
             p = os.path.join(ind, "m%d_%d.exp" % (i, k))
             open(p, "w", encoding="latin-1").write(express.mutate(c["schema"], m))
-            out.append(("m%d_%d" % (i, k), p, "valid" if m["class"] == "argcount" else "fault", m, c))
+            if m.get("stretch"):      # downstream the offending lexeme is the stretched one
+                m = dict(m, lexeme=m["lexeme"] + "x" * m["stretch"], **{"class": m["class"] + "_long%d" % m["stretch"]})
+            out.append(("m%d_%d" % (i, k), p, "valid" if m["class"].startswith("argcount") else "fault", m, c))
     return out
 
 
